@@ -1010,9 +1010,21 @@ class state_machine_base : public FrontEnd
     };
 
 
+    // Resets the processing flag when the entry behaviors are left
+    // by an exception (postprocess_entry() resets it otherwise).
+    struct event_processing_reset
+    {
+        ~event_processing_reset()
+        {
+            flag = false;
+        }
+        bool& flag;
+    };
+
     template <class Event, class Fsm>
     void on_entry(Event const& event, Fsm& fsm)
     {
+        event_processing_reset reset{m_event_processing};
         preprocess_entry(event, fsm);
 
         state_entry_visitor<Event> visitor{self(), event};
@@ -1024,6 +1036,7 @@ class state_machine_base : public FrontEnd
     template <class TargetStates, class Event, class Fsm>
     void on_explicit_entry(Event const& event, Fsm& fsm)
     {
+        event_processing_reset reset{m_event_processing};
         preprocess_entry(event, fsm);
 
         using state_identities =
